@@ -131,41 +131,50 @@ def run_harness(binary, inp, wd, tag="h", timeout=1200, extra_env=None, test="Te
 
 
 # ------------------------------------------------------------------ Coq
-def coq_make(clean=False):
-    """Full .vo build of the development (no -vos). Returns (ok, log)."""
+def coq_make(targets=None, clean=False):
+    """Full .vo build (no -vos) of the given targets (default: everything). Returns (ok, log)."""
     with Lock("coq"):
         sh([os.path.join(COQ, "gen_project.sh")], cwd=COQ)
         if clean:
             sh("make clean >/dev/null 2>&1; find . -name '*.vo' -o -name '*.glob' -o -name '*.vok' -o -name '*.vos' | xargs rm -f", cwd=COQ, check=False)
         t0 = time.time()
-        p = sh(["timeout", "3000", "make", "-j16"], cwd=COQ, check=False, timeout=3100)
-        log("[coq] make %s in %.1fs" % ("ok" if p.returncode == 0 else "FAILED", time.time() - t0))
+        cmd = ["timeout", "3000", "make", "-j16"] + (list(targets) if targets else [])
+        p = sh(cmd, cwd=COQ, check=False, timeout=3100)
+        log("[coq] make %s %s in %.1fs" % (" ".join(targets or ["all"]), "ok" if p.returncode == 0 else "FAILED", time.time() - t0))
         return p.returncode == 0, p.stdout
 
 
-def coq_gate():
-    """grep gate: no Admitted/admit/Axiom/Parameter/Conjecture/guard switches anywhere in the development."""
+def coq_dep_files(targets):
+    """the .v files of our development that the given .v files transitively require (per coqdep -sort)"""
+    p = sh(["coqdep", "-Q", ".", "Piko", "-sort"] + list(targets), cwd=COQ, check=False)
+    return [f for f in p.stdout.split() if f.endswith(".v") and os.path.exists(os.path.join(COQ, f))]
+
+
+def coq_gate(files=None):
+    """grep gate: no Admitted/admit/Axiom/Parameter/Conjecture/guard switches in the given files of the
+    development (default: all)."""
     bad = []
-    pat = re.compile(r"\b(Admitted|admit|Axiom|Axioms|Parameter|Parameters|Conjecture|Hypothesis|Variable|Admit Obligations|bypass_check|Unset Guard Checking|Unset Positivity Checking|Unset Universe Checking|type-in-type|impredicative-set)\b")
-    for root, _, files in os.walk(COQ):
-        for fn in files:
-            if not fn.endswith(".v"):
-                continue
-            p = os.path.join(root, fn)
-            text = open(p).read()
-            # strip comments (non nested is enough for our style) before matching
-            stripped = re.sub(r"\(\*.*?\*\)", "", text, flags=re.S)
-            in_section = 0
-            for ln, line in enumerate(stripped.split("\n"), 1):
-                if re.match(r"\s*Section\b", line):
-                    in_section += 1
-                if re.match(r"\s*End\b", line) and in_section:
-                    in_section -= 1
-                m = pat.search(line)
-                if m:
-                    if m.group(1) in ("Variable", "Hypothesis") and in_section:
-                        continue
-                    bad.append("%s:%d: %s" % (os.path.relpath(p, VERIF), ln, line.strip()))
+    pat = re.compile(r"\b(Admitted|admit|Axiom|Axioms|Parameter|Parameters|Conjecture|Hypothesis|Hypotheses|Variable|Variables|Admit Obligations|bypass_check|Unset Guard Checking|Unset Positivity Checking|Unset Universe Checking|type-in-type|impredicative-set)\b")
+    paths = []
+    if files is None:
+        for root, _, fns in os.walk(COQ):
+            paths += [os.path.join(root, fn) for fn in fns if fn.endswith(".v")]
+    else:
+        paths = [os.path.join(COQ, f) for f in files]
+    for p in paths:
+        text = open(p).read()
+        stripped = re.sub(r"\(\*.*?\*\)", "", text, flags=re.S)
+        in_section = 0
+        for ln, line in enumerate(stripped.split("\n"), 1):
+            if re.match(r"\s*Section\b", line):
+                in_section += 1
+            if re.match(r"\s*End\b", line) and in_section:
+                in_section -= 1
+            m = pat.search(line)
+            if m:
+                if m.group(1) in ("Variable", "Variables", "Hypothesis", "Hypotheses") and in_section:
+                    continue
+                bad.append("%s:%d: %s" % (os.path.relpath(p, VERIF), ln, line.strip()))
     return bad
 
 
@@ -190,16 +199,11 @@ def coq_property(pid):
 def coq_deps_obligations(pid):
     """Obligations = Lemma/Theorem/Corollary/Example statements in the files of our development that
     Properties/<pid>.v transitively requires (per coqdep)."""
-    p = sh(["coqdep", "-Q", ".", "Piko", "-sort", os.path.join("Properties", pid + ".v")], cwd=COQ, check=False)
-    files = [f for f in p.stdout.split() if f.endswith(".v")]
-    if not files:
-        files = [os.path.join("Properties", pid + ".v")]
+    files = coq_dep_files([os.path.join("Properties", pid + ".v")]) or [os.path.join("Properties", pid + ".v")]
     n = 0
     per = {}
     for f in files:
         path = os.path.join(COQ, f)
-        if not os.path.exists(path):
-            continue
         text = re.sub(r"\(\*.*?\*\)", "", open(path).read(), flags=re.S)
         c = len(re.findall(r"^\s*(?:Theorem|Corollary|Lemma|Example|Fact|Proposition)\s", text, flags=re.M))
         per[f] = c
